@@ -628,11 +628,254 @@ Lemma C13_commit_thm chk image s : down s = false ->
 Proof.
   intros Hd. unfold do_post, save_cfg.
   pose proof (save_sector_frame chk false (merge_undef (cfg s) image) s) as F.
-  pose proof (save_sector_atomic false (merge_undef (cfg s) image) s Hd) as A.
+  assert (A : chk = true -> let '(s1, _, r) := save_sector chk false (merge_undef (cfg s) image) s in
+              r = true -> sector false s1 = band_list (fill SEC_SIZE 255) (merge_undef (cfg s) image) /\ down s1 = false).
+  { intros ->. pose proof (save_sector_atomic false (merge_undef (cfg s) image) s Hd) as A.
+    destruct (save_sector true false (merge_undef (cfg s) image) s) as [[s1 o] r]. apply A. }
   destruct (save_sector chk false (merge_undef (cfg s) image) s) as [[s1 o] r]. destruct F as ((F1 & F2 & _) & F3 & _).
   cbn [negb sector] in F3.
   destruct r.
   - split; [reflexivity|]. split; [discriminate|]. split; [exact F2|]. split; [exact F3|].
-    intros -> _. destruct A as (_ & A & _). destruct (A eq_refl) as (A1 & A2). split; assumption.
+    intros Hc _. destruct (A Hc eq_refl) as (A1 & A2). split; assumption.
   - split; [discriminate|]. split; [intros _; exact F1|]. split; [exact F2|]. split; [exact F3|]. intros _ H. discriminate.
 Qed.
+
+(* --- C13_reset_keeps_identity --- *)
+Definition sym_cell_ok (x : sym) : bool := match x with K b => (-1 <=? b) && (b <? 256) | S _ _ => true end.
+Lemma cells_ok_nthz c i : cells_ok c -> cell_ok (nthz c i).
+Proof.
+  intros H. unfold nthz. destruct (nth_in_or_default (Z.to_nat i) c 0) as [Hin|Hd].
+  - unfold cells_ok in H. rewrite Forall_forall in H. auto.
+  - rewrite Hd. unfold cell_ok. lia.
+Qed.
+Lemma cells_ok_sym c L : cells_ok c -> forallb sym_cell_ok L = true -> cells_ok (map (ev (var1 c)) L).
+Proof.
+  intros Hc H. rewrite forallb_forall in H. unfold cells_ok. apply Forall_forall. intros b Hb.
+  apply in_map_iff in Hb as (x & <- & Hx). specialize (H _ Hx). destruct x as [v i|k]; cbn [ev sym_cell_ok] in *.
+  - apply cells_ok_nthz. exact Hc.
+  - apply andb_prop in H as [H1 H2]. apply Z.leb_le in H1. apply Z.ltb_lt in H2. unfold cell_ok. lia.
+Qed.
+Lemma fd_valid c : valid_img c -> valid_img (fd c).
+Proof.
+  intros (Hl & Hc & Ha). pose proof (fd_keeps c Hl) as K.
+  split; [apply len_fd; assumption|]. split.
+  - rewrite fd_sym by assumption. apply cells_ok_sym; [assumption|vm_compute; reflexivity].
+  - apply accept_iff in Ha as (A1 & A2 & A3). apply accept_iff.
+    rewrite (kept_In _ _ _ O7_TAG O7_TAG TAG_SIZE K) by (cbn; tauto).
+    rewrite (kept_In _ _ _ O7_AUTHKEY O7_AUTHKEY AUTHKEY_SIZE K) by (cbn; tauto).
+    rewrite (kept_In _ _ _ O7_GUID O7_GUID GUID_SIZE K) by (cbn; tauto). tauto.
+Qed.
+Lemma C13_reset_thm chk sv s : len (cfg s) = CFG_SIZE ->
+  let '(s1, o) := factory chk sv s in
+  cfg s1 = fd (cfg s) /\ sta s1 = fill STATE_SIZE 0 /\ kept (cfg s1) (cfg s) ID_FIELDS.
+Proof.
+  intros Hl. unfold factory. destruct (sv =? 1).
+  - unfold save_cfg.
+    pose proof (save_sector_frame chk false (cfg (upd_ram s (fd (cfg s)) (fill STATE_SIZE 0) (timer s))) (upd_ram s (fd (cfg s)) (fill STATE_SIZE 0) (timer s))) as F.
+    destruct (save_sector chk false _ _) as [[s2 o2] r2]. destruct F as ((F1 & F2 & _) & _).
+    unfold save_state_now.
+    pose proof (save_sector_frame chk true (sta s2) (set_timer s2 false)) as G.
+    destruct (save_sector chk true (sta s2) (set_timer s2 false)) as [[s3 o3] r3]. destruct G as ((G1 & G2 & _) & _).
+    cbn [cfg sta set_timer upd_ram] in *.
+    assert (E : cfg s3 = fd (cfg s)) by congruence.
+    split; [exact E|]. split; [congruence|]. rewrite E. apply fd_keeps. assumption.
+  - cbn [cfg sta upd_ram]. split; [reflexivity|]. split; [reflexivity|]. apply fd_keeps. assumption.
+Qed.
+(* ... and the reset record, once saved, is what the device boots into: identity still the same *)
+Lemma C13_reset_reboot_thm chk r0 s : quiet s -> valid_img (cfg s) ->
+  let '(s1, _) := factory chk 1 s in
+  let '(s2, _, r) := do_init chk r0 s1 in
+  cfg s2 = fd (cfg s) /\ kept (cfg s2) (cfg s) ID_FIELDS /\ sta s2 = fill STATE_SIZE 0 /\ r = 1.
+Proof.
+  intros Hq Hv. pose proof (fd_valid _ Hv) as (Vl & Vc & Va). destruct Hv as (Hl & Hc & Ha).
+  unfold factory. change (1 =? 1) with true. cbv iota. unfold save_cfg.
+  set (s0 := upd_ram s (fd (cfg s)) (fill STATE_SIZE 0) (timer s)).
+  assert (Q0 : quiet s0) by exact Hq.
+  pose proof (save_sector_quiet chk false (cfg s0) s0 Q0) as Q1.
+  destruct (save_sector chk false (cfg s0) s0) as [[s1 o1] r1]. destruct Q1 as (_ & Q1 & (R1 & R2 & R3 & R4) & O1 & S1 & _).
+  cbn [negb sector] in O1, S1. unfold save_state_now.
+  assert (Q1' : quiet (set_timer s1 false)) by exact Q1.
+  pose proof (save_sector_quiet chk true (sta s1) (set_timer s1 false) Q1') as Q2.
+  destruct (save_sector chk true (sta s1) (set_timer s1 false)) as [[s2 o2] r2]. destruct Q2 as (_ & Q2 & (T1 & T2 & T3 & T4) & O2 & S2 & _).
+  cbn [negb sector set_timer upd_ram fc fs cfg sta] in O2, S2, T1, T2.
+  change (cfg s0) with (fd (cfg s)) in *. change (sta s0) with (fill STATE_SIZE 0) in *.
+  assert (Hfc : take CFG_SIZE (fc s2) = fd (cfg s)).
+  { rewrite O2, S1. rewrite <- Vl at 1. apply take_written; [assumption|rewrite Vl; apply cfg_le_sec]. }
+  pose proof (do_init_plain chk r0 s2 (fd (cfg s)) Hfc (migrate_valid _ Va) Va) as P.
+  destruct (do_init chk r0 s2) as [[s3 o3] r3]. destruct P as (P1 & P2 & P3 & P4 & P5 & P6 & _).
+  split; [exact P1|]. split; [rewrite P1; apply fd_keeps; assumption|]. split; [|exact P6].
+  rewrite P2, S2, R2.
+  assert (Lz : len (fill STATE_SIZE 0) = STATE_SIZE) by (apply len_fill; vm_compute; discriminate).
+  rewrite <- Lz at 1. apply take_written; [|rewrite Lz; apply state_le_sec].
+  unfold cells_ok, fill. apply Forall_forall. intros b Hb. apply repeat_spec in Hb. subst b. unfold cell_ok. lia.
+Qed.
+
+(* --- C13_migration_keeps --- *)
+Lemma C13_migration_v6_thm chk r0 s c : len (fc s) = SEC_SIZE -> take CFG_SIZE (fc s) = c ->
+  slice c 0 5 = TAG5 -> nthz c 5 = 6 ->
+  slice c O6_GUID GUID_SIZE <> zeroG -> slice c O6_AUTHKEY AUTHKEY_SIZE <> zeroK ->
+  let '(s', o, r) := do_init chk r0 s in
+  r = 1 /\ kept (cfg s') c FIELDS6 /\ slice (cfg s') O7_TAG TAG_SIZE = TAG7.
+Proof.
+  intros Hw Hc Ht H6 Hg Hk. assert (Hl : len c = CFG_SIZE) by (rewrite <- Hc; apply take_cfg_len; assumption).
+  pose proof (do_init_ram chk r0 s (mig67z c) true) as R. rewrite Hc in R. specialize (R (migrate_v6 c Hl Ht H6)).
+  destruct (do_init chk r0 s) as [[s' o] r]. destruct R as (_ & R).
+  pose proof (mig67z_keeps c Hl) as K.
+  assert (Ha : accept (mig67z c) = true).
+  { apply accept_iff. split; [apply mig67z_tag; assumption|].
+    rewrite (kept_In _ _ _ O7_AUTHKEY O6_AUTHKEY AUTHKEY_SIZE K) by (cbn; tauto).
+    rewrite (kept_In _ _ _ O7_GUID O6_GUID GUID_SIZE K) by (cbn; tauto). split; assumption. }
+  rewrite Ha in R. destruct R as (R1 & R2). rewrite R1. split; [exact R2|]. split; [exact K|]. apply mig67z_tag; assumption.
+Qed.
+Lemma C13_migration_v5_thm chk r0 s c a : len (fc s) = SEC_SIZE -> take CFG_SIZE (fc s) = c ->
+  slice c 0 5 = TAG5 -> nthz c 5 = 5 -> isA c = Some a ->
+  slice c O5B_GUID GUID_SIZE <> zeroG -> slice c (if a then O5A_AUTHKEY else O5B_AUTHKEY) AUTHKEY_SIZE <> zeroK ->
+  let '(s', o, r) := do_init chk r0 s in
+  r = 1 /\ kept (cfg s') c (FIELDS5 a) /\ slice (cfg s') O7_TAG TAG_SIZE = TAG7.
+Proof.
+  intros Hw Hc Ht H5 HA Hg Hk. assert (Hl : len c = CFG_SIZE) by (rewrite <- Hc; apply take_cfg_len; assumption).
+  pose proof (do_init_ram chk r0 s (mig67z (mig56 a c)) true) as R. rewrite Hc in R. specialize (R (migrate_v5 c a Hl Ht H5 HA)).
+  destruct (do_init chk r0 s) as [[s' o] r]. destruct R as (_ & R).
+  pose proof (mig57_keeps a c Hl) as K.
+  assert (Htag : slice (mig67z (mig56 a c)) O7_TAG TAG_SIZE = TAG7).
+  { apply mig67z_tag; [apply len_mig56; assumption|apply mig56_tag5; assumption]. }
+  assert (Ha : accept (mig67z (mig56 a c)) = true).
+  { apply accept_iff. split; [exact Htag|].
+    rewrite (kept_In _ _ _ O7_AUTHKEY (if a then O5A_AUTHKEY else O5B_AUTHKEY) AUTHKEY_SIZE K) by (cbn; tauto).
+    rewrite (kept_In _ _ _ O7_GUID O5B_GUID GUID_SIZE K) by (cbn; tauto). split; assumption. }
+  rewrite Ha in R. destruct R as (R1 & R2). rewrite R1. split; [exact R2|]. split; [exact K|exact Htag].
+Qed.
+(* which layout a v5 record is taken for: a genuine 5B record (AuthKey set, e-mail with '@' and '.') is taken for 5B
+   whenever the scans of the 5A e-mail position end inside the record; a record whose 5B AuthKey position is zero for 5A *)
+Lemma isA_zero_key c : slice c O5B_AUTHKEY AUTHKEY_SIZE = zeroK -> isA c = Some true.
+Proof. intros H. unfold isA. fold zeroK. rewrite H, list_eqb_refl. reflexivity. Qed.
+Lemma isA_genuine_B c : slice c O5B_AUTHKEY AUTHKEY_SIZE <> zeroK -> isA c <> None ->
+  strchr (drop O5B_EMAIL c) 64 = Some true -> strchr (drop O5B_EMAIL c) 46 = Some true -> isA c = Some false.
+Proof.
+  intros Hk Hn H1 H2. unfold isA in *. fold zeroK in *. apply list_eqb_false in Hk. rewrite Hk in *.
+  destruct (strchr (drop O5A_EMAIL c) 64) as [[|]|]; [|reflexivity|contradiction].
+  destruct (strchr (drop O5A_EMAIL c) 46) as [[|]|]; [|reflexivity|contradiction].
+  rewrite H1, H2. reflexivity.
+Qed.
+
+(* --- C13_reject_foreign --- *)
+Lemma len_new_guid e r0 : len (new_guid e r0) = GUID_SIZE.
+Proof. unfold new_guid, gen_guid. rewrite len_map, len_zseq; [reflexivity|vm_compute; discriminate]. Qed.
+Lemma len_new_key e r0 : len (new_key e r0) = AUTHKEY_SIZE.
+Proof. unfold new_key, gen_key. rewrite len_map, len_zseq; [reflexivity|vm_compute; discriminate]. Qed.
+Definition rejected (c : list Z) : Prop :=
+  slice c 0 5 <> TAG5                                                         (* blank / foreign *)
+  \/ (nthz c 5 <> 5 /\ nthz c 5 <> 6 /\ nthz c 5 <> 7)                        (* unknown layout version *)
+  \/ (nthz c 5 = 7 /\ (slice c O7_GUID GUID_SIZE = zeroG \/ slice c O7_AUTHKEY AUTHKEY_SIZE = zeroK))   (* GUID or AuthKey zero *)
+  \/ (slice c 0 5 = TAG5 /\ nthz c 5 = 6 /\ (slice c O6_GUID GUID_SIZE = zeroG \/ slice c O6_AUTHKEY AUTHKEY_SIZE = zeroK))
+  \/ (slice c 0 5 = TAG5 /\ nthz c 5 = 5 /\ exists a, isA c = Some a /\
+      (slice c O5B_GUID GUID_SIZE = zeroG \/ slice c (if a then O5A_AUTHKEY else O5B_AUTHKEY) AUTHKEY_SIZE = zeroK)).
+Lemma C13_reject_thm chk r0 s c : len (fc s) = SEC_SIZE -> take CFG_SIZE (fc s) = c -> rejected c ->
+  let '(s', o, r) := do_init chk r0 s in
+  cfg s' = fresh_img (en s) r0 /\ sta s' = fill STATE_SIZE 0.
+Proof.
+  intros Hw Hc Hr. assert (Hl : len c = CFG_SIZE) by (rewrite <- Hc; apply take_cfg_len; assumption).
+  assert (G : exists c1 m, migrate c = Some (c1, m) /\ accept c1 = false /\ len c1 = CFG_SIZE).
+  { destruct Hr as [H|[(H5 & H6 & H7)|[(H7 & Hz)|[(Ht & H6 & Hz)|(Ht & H5 & a & HA & Hz)]]]].
+    - exists c, false. split; [apply migrate_foreign; assumption|]. split; [|assumption].
+      apply accept_false_tag. intros E. apply tag7_split in E. tauto.
+    - exists c, false. split; [apply migrate_other; assumption|]. split; [|assumption].
+      apply accept_false_tag. intros E. apply tag7_split in E. tauto.
+    - exists c, false. split; [apply migrate_other; rewrite H7; discriminate|]. split; [|assumption].
+      destruct Hz; [apply accept_false_guid|apply accept_false_key]; assumption.
+    - exists (mig67z c), true. split; [apply migrate_v6; assumption|]. split; [|apply len_mig67z; assumption].
+      pose proof (mig67z_keeps c Hl) as K. destruct Hz as [Hz|Hz].
+      + apply accept_false_guid. rewrite (kept_In _ _ _ O7_GUID O6_GUID GUID_SIZE K) by (cbn; tauto). exact Hz.
+      + apply accept_false_key. rewrite (kept_In _ _ _ O7_AUTHKEY O6_AUTHKEY AUTHKEY_SIZE K) by (cbn; tauto). exact Hz.
+    - exists (mig67z (mig56 a c)), true. split; [apply migrate_v5; assumption|].
+      split; [|apply len_mig67z; apply len_mig56; assumption].
+      pose proof (mig57_keeps a c Hl) as K. destruct Hz as [Hz|Hz].
+      + apply accept_false_guid. rewrite (kept_In _ _ _ O7_GUID O5B_GUID GUID_SIZE K) by (cbn; tauto). exact Hz.
+      + apply accept_false_key. rewrite (kept_In _ _ _ O7_AUTHKEY (if a then O5A_AUTHKEY else O5B_AUTHKEY) AUTHKEY_SIZE K) by (cbn; tauto). exact Hz. }
+  destruct G as (c1 & m & Hm & Ha & Hl1).
+  pose proof (do_init_ram chk r0 s c1 m) as R. rewrite Hc in R. specialize (R Hm).
+  destruct (do_init chk r0 s) as [[s' o] r]. destruct R as (_ & R). rewrite Ha in R. destruct R as (R1 & R2).
+  split; [|exact R2]. rewrite R1. unfold fresh_img. apply fresh_of_spec; [assumption|apply len_new_guid|apply len_new_key].
+Qed.
+Lemma blank_rejected : rejected (take CFG_SIZE (fill SEC_SIZE 255)).
+Proof. left. vm_compute. discriminate. Qed.
+
+(* --- C13_crash_atomicity (repaired code) --- *)
+Lemma C13_atomicity_thm w img s : down s = false ->
+  let '(s1, o, r) := save_sector true w img s in
+  (sector w s1 = sector w s \/ sector w s1 = fill SEC_SIZE 255 \/ sector w s1 = band_list (fill SEC_SIZE 255) img) /\
+  sector (negb w) s1 = sector (negb w) s /\ cfg s1 = cfg s /\ sta s1 = sta s /\
+  (r = true -> sector w s1 = band_list (fill SEC_SIZE 255) img).
+Proof.
+  intros Hd. pose proof (save_sector_atomic w img s Hd) as A. pose proof (save_sector_frame true w img s) as F.
+  destruct (save_sector true w img s) as [[s1 o] r]. destruct A as (A1 & A2 & _). destruct F as ((F1 & F2 & _) & F3 & _).
+  split; [exact A1|]. split; [exact F3|]. split; [exact F1|]. split; [exact F2|]. intros H. apply A2. exact H.
+Qed.
+(* the boot after a configuration save that failed or lost power anywhere: old record, new record or fresh defaults *)
+Lemma C13_atomicity_boot_thm img s r0 : down s = false -> len (fc s) = SEC_SIZE ->
+  valid_img (take CFG_SIZE (fc s)) -> valid_img img ->
+  let '(s1, _, _) := save_cfg true img s in
+  let '(s2, _, _) := do_init true r0 s1 in
+  cfg s2 = take CFG_SIZE (fc s) \/ cfg s2 = img \/ (cfg s2 = fresh_img (en s) r0 /\ sta s2 = fill STATE_SIZE 0).
+Proof.
+  intros Hd Hw (Ol & Oc & Oa) (Il & Ic & Ia). unfold save_cfg.
+  pose proof (save_sector_atomic false img s Hd) as A. pose proof (save_sector_frame true false img s) as F.
+  destruct (save_sector true false img s) as [[s1 o] r]. destruct A as (A1 & _). destruct F as ((_ & _ & _ & Fe) & _).
+  cbn [sector] in A1. destruct A1 as [A1|[A1|A1]].
+  - pose proof (do_init_ram true r0 s1 (take CFG_SIZE (fc s)) false) as R. rewrite A1 in R. specialize (R (migrate_valid _ Oa)).
+    destruct (do_init true r0 s1) as [[s2 o2] r2]. destruct R as (_ & R). rewrite Oa in R. left. apply R.
+  - pose proof (C13_reject_thm true r0 s1 (take CFG_SIZE (fill SEC_SIZE 255))) as R.
+    rewrite A1 in R. specialize (R (len_fill SEC_SIZE 255 ltac:(vm_compute; discriminate)) eq_refl blank_rejected).
+    destruct (do_init true r0 s1) as [[s2 o2] r2]. right. right. rewrite <- Fe. exact R.
+  - assert (E : take CFG_SIZE (fc s1) = img).
+    { rewrite A1. rewrite <- Il at 1. apply take_written; [assumption|rewrite Il; apply cfg_le_sec]. }
+    pose proof (do_init_ram true r0 s1 img false) as R. rewrite E in R. specialize (R (migrate_valid _ Ia)).
+    destruct (do_init true r0 s1) as [[s2 o2] r2]. destruct R as (_ & R). rewrite Ia in R. right. left. apply R.
+Qed.
+
+(* --- the code before the repair: a failed erase is ignored, the write lands on the old cells --- *)
+Definition wit_img (b : Z) : list Z :=
+  blit (blit (blit (blit (fill CFG_SIZE 0) O7_TAG TAG7) O7_GUID (fill GUID_SIZE 1)) O7_AUTHKEY (fill AUTHKEY_SIZE 2)) O7_SERVER [b].
+Definition wit_st : st :=
+  {| cfg := wit_img 240; sta := fill STATE_SIZE 0; fc := band_list (fill SEC_SIZE 255) (wit_img 15); fs := fill SEC_SIZE 255;
+     failc := 1; failcode := FLASH_TIMEOUT; crashc := 0; timer := false; down := false; en := en init_st |}.
+Lemma C13_old_code_refuted_thm :
+  (* old code: the save of record 240 "succeeds" but the sector holds neither it nor the old record 15, and the next boot accepts the mix *)
+  (let '(s1, _, r) := save_cfg false (cfg wit_st) wit_st in
+   r = true /\ take CFG_SIZE (fc s1) <> wit_img 240 /\ take CFG_SIZE (fc s1) <> wit_img 15 /\
+   let '(s2, _, _) := do_init false 0 s1 in cfg s2 = wit_img 0) /\
+  (* repaired code: the save fails and the sector still holds the old record *)
+  (let '(s1, _, r) := save_cfg true (cfg wit_st) wit_st in r = false /\ take CFG_SIZE (fc s1) = wit_img 15) /\
+  accept (wit_img 240) = true /\ accept (wit_img 15) = true.
+Proof. vm_compute. repeat split; try reflexivity; discriminate. Qed.
+
+(* the boot after a STATE save that failed or lost power anywhere: configuration untouched, state = old, new, or the erased
+   cells (the state sector is loaded without any validity test — see the report) *)
+Lemma C13_atomicity_state_boot_thm stt s r0 : down s = false -> valid_img (take CFG_SIZE (fc s)) ->
+  len stt = STATE_SIZE -> cells_ok stt ->
+  let '(s1, _, _) := save_sector true true stt s in
+  let '(s2, _, _) := do_init true r0 s1 in
+  cfg s2 = take CFG_SIZE (fc s) /\
+  (sta s2 = take STATE_SIZE (fs s) \/ sta s2 = fill STATE_SIZE 255 \/ sta s2 = stt).
+Proof.
+  intros Hd (Ol & Oc & Oa) Sl Sc.
+  pose proof (save_sector_atomic true stt s Hd) as A. pose proof (save_sector_frame true true stt s) as F.
+  destruct (save_sector true true stt s) as [[s1 o] r]. destruct A as (A1 & _). destruct F as (_ & F & _).
+  cbn [negb sector] in A1, F.
+  pose proof (do_init_plain true r0 s1 (take CFG_SIZE (fc s))) as P. rewrite F in P. specialize (P eq_refl (migrate_valid _ Oa) Oa).
+  destruct (do_init true r0 s1) as [[s2 o2] r2]. destruct P as (P1 & P2 & _).
+  split; [exact P1|]. rewrite P2. destruct A1 as [A1|[A1|A1]]; rewrite A1.
+  - left. reflexivity.
+  - right. left. vm_compute. reflexivity.
+  - right. right. rewrite <- Sl at 1. apply take_written; [assumption|rewrite Sl; apply state_le_sec].
+Qed.
+
+(* decidable form of cells_ok, for examples *)
+Definition cells_okb (l : list Z) : bool := forallb (fun b => (-1 <=? b) && (b <? 256)) l.
+Lemma cells_okb_ok l : cells_okb l = true -> cells_ok l.
+Proof.
+  unfold cells_okb, cells_ok. rewrite forallb_forall. intros H. apply Forall_forall. intros b Hb. specialize (H _ Hb).
+  apply andb_prop in H as [H1 H2]. apply Z.leb_le in H1. apply Z.ltb_lt in H2. unfold cell_ok. lia.
+Qed.
+Lemma wit_valid b : b = 15 \/ b = 240 -> valid_img (wit_img b).
+Proof. intros [->| ->]; (split; [vm_compute; reflexivity|]; split; [apply cells_okb_ok; vm_compute; reflexivity|vm_compute; reflexivity]). Qed.
